@@ -155,3 +155,39 @@ class Report(object):
               % (self.pid, self.tier, n_ob, n_ok, len(kf), len(viol),
                  ', ANALYSIS BROKEN' if self.broken else '', time.time() - self.t0))
         return status
+
+
+class Remap(object):
+    """Proxy that records another property's shared rules under this property's rule ids.
+    `mapping` maps a source rule id (or prefix ending in '.') to the id to record; unmapped rules are
+    dropped (when only=True) or passed through."""
+
+    def __init__(self, R, mapping, only=True):
+        self.R, self.mapping, self.only = R, mapping, only
+
+    def _m(self, rule):
+        if rule in self.mapping:
+            return self.mapping[rule]
+        for k, v in self.mapping.items():
+            if k.endswith('.') and rule.startswith(k):
+                return v + rule[len(k):]
+        return None if self.only else rule
+
+    def ob(self, rule, *a, **k):
+        r = self._m(rule)
+        if r is None:
+            return True
+        return self.R.ob(r, *a, **k)
+
+    def floor(self, rule, n, why=''):
+        r = self._m(rule)
+        if r is not None:
+            self.R.floor(r, n, why)
+
+    def exception(self, rule, *a, **k):
+        r = self._m(rule)
+        if r is not None:
+            self.R.exception(r, *a, **k)
+
+    def __getattr__(self, n):
+        return getattr(self.R, n)
